@@ -56,8 +56,9 @@ REQUIRED_WRITE = [
     'put_goes_to_index', 'put_raw_served', 'put_formatted_served_iff', 'put_index_out_of_range', 'entry_points_agree',
     'put_segment_independent_of_raw', 'put_routes',
 ]
-REQUIRED_BRIDGE_READ = []
-REQUIRED_BRIDGE_WRITE = []
+REQUIRED_BRIDGE_READ = ['gen_extract', 'gen_reader_call', 'gen_reader_getitem', 'gen_reader_read', 'gen_reader_read_raw',
+                        'gen_reader_read_chip', 'gen_dispatch_get', 'pyFor_ok', 'pyFor_append', 'convRanges_eq_mapE', 'split_strings']
+REQUIRED_BRIDGE_WRITE = ['gen_writer_call', 'gen_writer_write', 'gen_writer_write_raw', 'gen_writer_write_chip', 'gen_dispatch_put']
 
 
 def regen():
@@ -969,11 +970,18 @@ def run_reads(chk, tier, only=None):
                 check_aggregate(subj, drv, jobs)
                 consumer_checks(rng, subj, drv, jobs, fails, stats)
         ans = drv.run()
+        gen_ans, gen_broken = gen_answers(drv.lines)
+        stats['gen_three_way'] = 0
         for subj, reqs, idx, szq in work:
             check_sizes(subj, ans[szq], fails, dis)
             for req, i in zip(reqs, idx):
                 stats['requests'] += 1
                 impl, log = run_request(subj.reader, req)
+                if gen_ans is not None:
+                    g = compare_gen(gen_ans[i], ans[i], log if subj.recorded else None, impl)
+                    stats['gen_three_way'] += 1
+                    if g:
+                        dis.append({'kind': 'dispatch', 'subject': subj.desc, 'req': req, 'tie': g[0], 'msg': g[1]})
                 m = compare_model(subj, req, ans[i], impl, log)
                 if m:
                     dis.append({'kind': 'dispatch', 'subject': subj.desc, 'req': req, 'tie': 'model (Spec.Dispatch vs BaseReader)', 'msg': m})
@@ -993,7 +1001,47 @@ def run_reads(chk, tier, only=None):
         shutil.rmtree(tmpdir, ignore_errors=True)
         logging.disable(logging.NOTSET)
     stats['classes'] = len(stats['classes'])
-    return {'fails': dedupe(fails), 'disagreements': dis, 'evaluations': stats['requests'] + stats.get('consumer_cases', 0), 'stats': stats}
+    return {'fails': dedupe(fails), 'disagreements': dis, 'evaluations': stats['requests'] + stats.get('consumer_cases', 0), 'stats': stats,
+            'broken': gen_broken}
+
+
+def gen_answers(lines):
+    """the same request lines put to the regenerated functions (driver `dispgen`); (answers | None, broken obligations)"""
+    sel = [(i, l) for i, l in enumerate(lines) if l.split(' ')[1] in ('get', 'call', 'read', 'readraw', 'readchip', 'put')]
+    try:
+        d = Driver()
+        for _, l in sel:
+            d.ask('dispgen' + l[4:])
+        out = d.run()
+    except Infra as e:
+        return None, ['Gen/Dispatch.lean (regenerated from base.py / data_segment.py) does not build or run: ' + str(e)[:300]]
+    ans = {}
+    for (i, _), a in zip(sel, out):
+        ans[i] = a
+    return ans, []
+
+
+def compare_gen(gen, spec, log, impl):
+    """three-way: regenerated function vs model (what the bridge theorems state) and vs the observed hand-over"""
+    if gen == 'bad-op':
+        return None
+    head = spec.split(' | ')[0]
+    if gen != head and not (gen.startswith('err') and head.startswith('err')):
+        return 'bridge (Gen vs Spec)', f'regenerated function answers {gen}, model {head}'
+    if log is not None:
+        if gen.startswith('err'):
+            # where inside the layer a refusal happens is not observable behaviour (a tuple range holding a non-integer is refused by the
+            # model when the slice is built, by the code when the segment verifies it): only refused-vs-served is compared
+            if impl[0] == 'ok':
+                return 'translator (python vs Gen)', f'regenerated function refuses ({gen}), implementation handed {log[:1]} to a segment and returned data'
+        elif log:
+            _, k, raw, sq, sub = gen.split(' ')
+            want = (int(k), 'read_raw' if raw == '1' else 'read', sub, sq == '1')
+            if log[0][0] is not None and tuple(log[0]) != want:
+                return 'translator (python vs Gen)', f'regenerated function hands {want} to the segment, implementation {log[0]}'
+        elif impl[0] == 'ok':
+            pass
+    return None
 
 
 def describe(req):
@@ -1163,6 +1211,7 @@ def run_writes(chk, tier):
         reqs = [rand_put(rng, desc, flags) for _ in range(14 if tier == 'quick' else 30)]
         work.append((desc, w, stores, flags, reqs, [drv.ask(put_line(flags, r)) for r in reqs]))
     ans = drv.run()
+    gen_ans, gen_broken = gen_answers(drv.lines)
     for desc, w, stores, flags, reqs, idx in work:
         count = len(stores)
         for serial, (req, i) in enumerate(zip(reqs, idx)):
@@ -1178,6 +1227,12 @@ def run_writes(chk, tier):
             if model == 'bad-op':
                 raise Infra('model driver cannot parse: ' + put_line(flags, req))
             stats['classes'].add((req['ep'], req['how'], model.split(' ')[0], impl[0], req['raw'], req['index'] < 0, count > 1))
+            if gen_ans is not None and gen_ans[i] != model and not (gen_ans[i].startswith('err') and model.startswith('err')):
+                dis.append(dict(case, tie='bridge (Gen vs Spec)', msg=f'regenerated function answers {gen_ans[i]}, model {model}'))
+            if gen_ans is not None and not gen_ans[i].startswith('err') and log:
+                _, gk, graw, gstart, gsub = gen_ans[i].split(' ')
+                if tuple(log[0]) != (int(gk), 'write_raw' if graw == '1' else 'write', gstart, gsub, []):
+                    dis.append(dict(case, tie='translator (python vs Gen)', msg=f'regenerated function answers {gen_ans[i]}, implementation handed {log[:1]}'))
             if model.startswith('err'):
                 if impl[0] == 'ok' or changed:
                     dis.append(dict(case, tie='model (Spec.Dispatch vs BaseWriter)', msg=f'model refuses ({model}); implementation {impl[0]}, segments changed {changed}'))
@@ -1235,7 +1290,8 @@ def run_writes(chk, tier):
         shutil.rmtree(tmpdir, ignore_errors=True)
         logging.disable(logging.NOTSET)
     stats['classes'] = len(stats['classes'])
-    return {'fails': dedupe(fails), 'disagreements': dis, 'evaluations': stats['puts'] + stats['file_histories'], 'stats': stats}
+    return {'fails': dedupe(fails), 'disagreements': dis, 'evaluations': stats['puts'] + stats['file_histories'], 'stats': stats,
+            'broken': gen_broken}
 
 
 def file_history(rng, desc, tmpdir, fails, stats):
